@@ -17,6 +17,7 @@
 # You should have received a copy of the GNU General Public License
 # along with this program.  If not, see <http://www.gnu.org/licenses/>.
 
+import sys
 from typing import Any
 from typeguard import typechecked
 
@@ -520,7 +521,7 @@ class GState:
 
         self._user_bounds.validate("feed-rate", speed)
 
-        if not isinstance(speed, int | float) or not speed >= 0.0 or speed == float("inf"):
+        if not isinstance(speed, int | float) or not 0.0 <= speed <= sys.float_info.max:
             message = f"Invalid feed rate '{speed}'."
             raise ValueError(message)
 
@@ -529,6 +530,6 @@ class GState:
 
         self._user_bounds.validate("tool-power", power)
 
-        if not isinstance(power, int | float) or not power >= 0.0 or power == float("inf"):
+        if not isinstance(power, int | float) or not 0.0 <= power <= sys.float_info.max:
             message = f"Invalid tool power '{power}'."
             raise ValueError(message)
